@@ -4,7 +4,11 @@ import Operon.Model.Cffl
   Line-protocol driver shared by C07 and C08 (`Drv/C07.lean`, `Drv/C08.lean` only call `main`).
 
   cfg <gate> <breakerOn> <threshold> <timeoutUs> <cacheOn> <ttlUs> [<budget> [stub|real]]   -> "ok"
-  run <pid|u<pid>> <zVerdict|exc> <yVerdict|exc>                            -> result ; stats
+  run <pid|u<pid>> <zVerdict|exc..> <yVerdict|exc..>                        -> result ; stats
+      agent exceptions: exc / excK / excR = an Exception that can be rendered (RuntimeError, KeyError without
+      arguments, one whose __repr__ raises), excS = an Exception whose __str__ raises, excB = a BaseException
+  set onblock|onpermit none|ok|raise          -> "- ; stats"   loop.on_block / loop.on_permit re-assigned: not set,
+      a callable that returns, a callable that raises HookError (the result it was given is shown before `!HookError`)
   adv <us> | resetcb | clearcache                                           -> "- ; stats"
   reenter <gate> <cacheOn> <e|a> <depth> <pA> <zA> <yA> <pB> <zB> <yB>      -> "ok"   (search-side only: an agent
       that issues a nested run() on the same loop is outside the model — `run` is atomic — and is judged by the
@@ -41,6 +45,8 @@ structure DSt where
   cfg : Cfg := {}
   st : State := {}
   store : Store := {}
+  hooks : Hooks := {}
+  tally : Tally := {}
 
 /-- The agents of the harness (stubs, and the built-in BioAgent on prompts its membrane lets through) first ask
     the store for 10 ATP and answer FAILURE when refused; otherwise they give the scripted response.  The model
@@ -54,7 +60,7 @@ def runWithEnergy (d : DSt) (p : Prompt) (zr yr : Resp) : DSt × State × Out :=
     let (store1, ok1) := d.store.consume d.cfg.cost
     let zEff := if ok1 then zr else .ret .failure
     match zEff with
-    | .exc =>
+    | .exc | .excU | .excB =>
       let r := run d.cfg idHashes d.st p zEff yr
       ({ d with st := r.1, store := store1 }, r.1, r.2)
     | .ret _ =>
@@ -68,7 +74,9 @@ def gateOf : String → Gate
   | "executor_priority" => .execPrio | "assessor_priority" => .assessPrio | _ => .and
 
 def respOf (s : String) : Resp :=
-  if s = "exc" then .exc
+  if s = "exc" || s = "excK" || s = "excR" then .exc
+  else if s = "excS" then .excU
+  else if s = "excB" then .excB
   else if s.startsWith "x:" then .ret (classify (String.ofList ((decodeCps (s.drop 2).toString).map Char.ofNat)))
   else .ret (classify s)
 
@@ -85,25 +93,46 @@ def showCState : CState → String
 def showAgent : Agent → String
   | .executor => "executor" | .assessor => "assessor"
 
-def showStats (s : State) (store : Store) : String :=
+def showStats0 (s : State) (store : Store) : String :=
   joinSp [toString s.execCalls, toString s.assessCalls, toString (store.cap - store.atp), showCState s.br.cstate,
     toString s.br.failures, toString s.br.successes, showOptNat s.br.lastFailure, showOptNat s.br.lastSuccess,
     toString s.br.trips, toString s.br.totalErrors, toString s.cache.length]
 
-def showResult : Option Result → String
-  | none => "raise:UnicodeEncodeError"
-  | some r =>
-    joinSp [showAction r.action, showBool r.success, showBool r.blocked,
-      (match r.token with | some t => toString t.hash | none => "none"),
-      (match r.token with | some t => showAgent t.issuer | none => "-"),
-      showBool r.cached]
+def showTally (t : Tally) : String :=
+  joinSp [toString t.requests, toString t.blocked, toString t.permitted, toString t.logged,
+    toString t.blockHookCalls, toString t.permitHookCalls]
+
+def showStatsD (d : DSt) : String := showStats0 d.st d.store ++ " " ++ showTally d.tally
+
+def showRes (r : Result) : String :=
+  joinSp [showAction r.action, showBool r.success, showBool r.blocked,
+    (match r.token with | some t => toString t.hash | none => "none"),
+    (match r.token with | some t => showAgent t.issuer | none => "-"),
+    showBool r.cached]
+
+/-- what the caller sees: the reply, the exception a callback raised (after the result it was given), or the
+    exception `run` raised: the rendering error of an unprintable agent exception, the agent's BaseException, or
+    the UnicodeEncodeError of an un-encodable prompt -/
+def showDelivery (o : Out) : Delivery → String
+  | .reply r => showRes r
+  | .hookRaised r => showRes r ++ " !HookError"
+  | .nothing =>
+    match o.kind with
+    | .agentExc => "raise:ValueError"
+    | .aborted => "raise:AgentAbort"
+    | _ => "raise:UnicodeEncodeError"
+
+/-- the tail of `run` (statistics, callbacks) for the request handled as `o` -/
+def tail (d : DSt) (o : Out) : DSt × String :=
+  let (t, dl) := deliver d.hooks d.tally o
+  ({ d with tally := t }, showDelivery o dl)
 
 def showEvent : BEvent → String
   | .success => "success" | .neither => "neither" | .failure => "failure"
 
 def showKind : Kind → String
   | .circuitOpen => "circuit_open" | .cacheHit => "cache_hit" | .agentExc => "agent_exc"
-  | .gated e => "gated_" ++ showEvent e | .raised => "raised" | .admin => "admin"
+  | .gated e => "gated_" ++ showEvent e | .raised => "raised" | .admin => "admin" | .aborted => "aborted"
 
 def tags (cfg : Cfg) (s s' : State) (o : Out) : String :=
   let t1 := "k:" ++ showKind o.kind
@@ -120,6 +149,9 @@ def tags (cfg : Cfg) (s s' : State) (o : Out) : String :=
     | some r => if r.token.isSome then ["token"] else []
     | none => []
   joinSp (t1 :: (t2 ++ t3 ++ t4 ++ t5 ++ t6))
+
+def hookOf : String → Option Hook
+  | "none" => some .unset | "ok" => some .ok | "raise" => some .raises | _ => none
 
 def mkCfg (g b thr tmo c ttl : String) : Cfg :=
   { gate := gateOf g, breakerOn := boolOf b, threshold := intD thr, timeout := intD tmo,
@@ -141,6 +173,12 @@ def ph (d : DSt) (op : PhaseOp) : DSt × Option Out :=
   let r := phaseStep d.cfg idHashes d.st op
   ({ d with st := r.1 }, r.2)
 
+/-- the phase at which a request is answered, followed by the tail of `run` -/
+def endPhase (d : DSt) (op : PhaseOp) (inner : List String) : DSt × List String :=
+  match ph d op with
+  | (d', some o) => let (d'', r) := tail d' o; (d'', r :: inner)
+  | (d', none) => (d', "?" :: inner)
+
 /-- A nest of overlapping requests as a phase history: every state change below is one `phaseStep` (the energy
     store is the driver's).  Returns the replies, outermost request first (`-` = never issued). -/
 def nestRun (d : DSt) : List Level → DSt × List String
@@ -148,7 +186,7 @@ def nestRun (d : DSt) : List Level → DSt × List String
   | L :: rest =>
     let skipped := rest.map fun _ => "-"
     match ph d (.lookup L.p) with
-    | (d0, some o) => (d0, showResult o.result :: skipped)
+    | (d0, some o) => let (d0', r) := tail d0 o; (d0', r :: skipped)
     | (d0, none) =>
       let d1 := (ph d0 .execCall).1
       let (d2, inner) := if L.atExec then
@@ -158,9 +196,9 @@ def nestRun (d : DSt) : List Level → DSt × List String
       let (store1, ok1) := d2.store.consume d2.cfg.cost
       let d3 := { d2 with store := store1 }
       match (if ok1 then L.z else Resp.ret .failure) with
-      | .exc =>
-        let (d4, o) := ph d3 .agentRaised
-        (d4, showResult (o.bind (·.result)) :: inner)
+      | .exc => endPhase d3 .agentRaised inner
+      | .excU => endPhase d3 .agentRaisedU inner
+      | .excB => endPhase d3 .agentAborted inner
       | .ret zc =>
         let d4 := (ph d3 .assessCall).1
         let (d5, inner) := if L.atExec then (d4, inner) else
@@ -169,19 +207,17 @@ def nestRun (d : DSt) : List Level → DSt × List String
         let (store2, ok2) := d5.store.consume d5.cfg.cost
         let d6 := { d5 with store := store2 }
         match (if ok2 then L.y else Resp.ret .failure) with
-        | .exc =>
-          let (d7, o) := ph d6 .agentRaised
-          (d7, showResult (o.bind (·.result)) :: inner)
-        | .ret yc =>
-          let (d7, o) := ph d6 (.finish L.p zc yc)
-          (d7, showResult (o.bind (·.result)) :: inner)
+        | .exc => endPhase d6 .agentRaised inner
+        | .excU => endPhase d6 .agentRaisedU inner
+        | .excB => endPhase d6 .agentAborted inner
+        | .ret yc => endPhase d6 (.finish L.p zc yc) inner
 
 def nestLine (d : DSt) (toks : List String) : DSt × String :=
   let ls := levelsOf toks
   if ls.isEmpty || ls.length * 5 ≠ toks.length || 4 < ls.length then (d, "bad-op")
   else
     let (d', rs) := nestRun d ls
-    (d', " | ".intercalate rs ++ " ; " ++ showStats d'.st d'.store ++ s!" ## nest:{ls.length}"
+    (d', " | ".intercalate rs ++ " ; " ++ showStatsD d' ++ s!" ## nest:{ls.length}"
       ++ (if d'.st.cache.length < d.st.cache.length then " cache:shrunk" else "")
       ++ (if (rs.filter (· ≠ "-")).length = ls.length then " nest:all-issued" else ""))
 
@@ -193,19 +229,35 @@ def step (d : DSt) (toks : List String) : DSt × String :=
   | ["cfg", g, b, thr, tmo, c, ttl, bud, _] =>
     ({ cfg := mkCfg g b thr tmo c ttl, st := {}, store := { atp := natD bud, cap := natD bud } }, "ok")
   | ["run", p, z, y] =>
-    let (d', s', o) := runWithEnergy d (promptOf p) (respOf z) (respOf y)
-    (d', showResult o.result ++ " ; " ++ showStats s' d'.store ++ " ## " ++ tags d.cfg d.st s' o
-      ++ (if d'.store.atp = d.store.atp ∧ s'.execCalls ≠ d.st.execCalls then " energy:refused" else ""))
+    let (d1, s', o) := runWithEnergy d (promptOf p) (respOf z) (respOf y)
+    let (d', shown) := tail d1 o
+    (d', shown ++ " ; " ++ showStatsD d' ++ " ## " ++ tags d.cfg d.st s' o
+      ++ (if d'.store.atp = d.store.atp ∧ s'.execCalls ≠ d.st.execCalls then " energy:refused" else "")
+      ++ (if d'.tally.blockHookCalls ≠ d.tally.blockHookCalls then " hook:block" else "")
+      ++ (if d'.tally.permitHookCalls ≠ d.tally.permitHookCalls then " hook:permit" else "")
+      ++ (if shown.endsWith "!HookError" then " hook:raised" else "")
+      ++ (if o.kind = .agentExc ∧ o.result.isNone then " exc:unprintable" else ""))
   | ["adv", us] =>
     let (s', _) := Cffl.step d.cfg idHashes d.st (.adv (natD us))
-    ({ d with st := s' }, "- ; " ++ showStats s' d.store)
+    let d' := { d with st := s' }
+    (d', "- ; " ++ showStatsD d')
   | ["resetcb"] =>
     let (s', _) := Cffl.step d.cfg idHashes d.st .resetcb
-    ({ d with st := s' }, "- ; " ++ showStats s' d.store ++ (if d.st.br.cstate ≠ s'.br.cstate then s!" ## tr:{showCState d.st.br.cstate}>closed:reset" else ""))
+    let d' := { d with st := s' }
+    (d', "- ; " ++ showStatsD d' ++ (if d.st.br.cstate ≠ s'.br.cstate then s!" ## tr:{showCState d.st.br.cstate}>closed:reset" else ""))
   | ["clearcache"] =>
     let (s', _) := Cffl.step d.cfg idHashes d.st .clearcache
-    ({ d with st := s' }, "- ; " ++ showStats s' d.store)
+    let d' := { d with st := s' }
+    (d', "- ; " ++ showStatsD d')
   | "nest" :: rest => nestLine d rest
+  | ["set", "onblock", v] =>
+    match hookOf v with
+    | some h => let d' := { d with hooks := { d.hooks with onBlock := h } }; (d', "- ; " ++ showStatsD d' ++ " ## set:onblock")
+    | none => (d, "bad-op")
+  | ["set", "onpermit", v] =>
+    match hookOf v with
+    | some h => let d' := { d with hooks := { d.hooks with onPermit := h } }; (d', "- ; " ++ showStatsD d' ++ " ## set:onpermit")
+    | none => (d, "bad-op")
   | ["set", k, v] =>
     let c := d.cfg
     let c' : Option Cfg := match k with
@@ -218,7 +270,7 @@ def step (d : DSt) (toks : List String) : DSt × String :=
       | "agents" => some c
       | _ => none
     match c' with
-    | some c' => ({ d with cfg := c' }, "- ; " ++ showStats d.st d.store ++ " ## set:" ++ k)
+    | some c' => ({ d with cfg := c' }, "- ; " ++ showStatsD d ++ " ## set:" ++ k)
     | none => (d, "bad-op")
   | ["reenter", _, _, _, _, _, _, _, _, _, _] => (d, "ok")   -- re-entrant agent stubs: judged by the harness oracle only
   | _ => (d, "bad-op")
